@@ -73,7 +73,7 @@ CFG = dict(
         "int_head_width_boundary": 100, "write_float_near_2p63": 50, "write_float_near_fltmax": 50,
         "write_float_exactly_pm_2p63": 10, "write_float_exactly_pm_fltmax": 10,
         "write_float_as_integer": 100, "write_float_as_single": 100, "write_float_as_double": 100,
-        "encoder_buffer_growth": 100, "one_decoder_skipped_1000_or_more_items": 20, "encoder_buffer_grown_past_64MiB": 10, "string_ge_64k": 5, "nesting_eq_64": 5, "indefinite_container": 50,
+        "encoder_buffer_growth": 100, "one_decoder_skipped_1000_or_more_items": 20, "encoder_buffer_grown_past_64MiB": 10, "tag_55799_as_first_item": 10, "string_ge_64k": 5, "nesting_eq_64": 5, "indefinite_container": 50,
         "indefinite_string": 50, "skip_nested_item": 100, "skip_after_peek": 100, "tight_fit_write_forced_growth": 5,
         "count_head_ge_24": 5, "encoder_reset_reuse": 20, "skip_checks": 10000,
     }},
